@@ -82,6 +82,21 @@ def gen(tier):
         lane2 = ([{'do': 'sleep', 'as': '', 'res': '', 'args': [], 'n': d}] if d else []) + [progs.step_discard('r0')]
         steps = [progs.step_run('r0', p0), progs.step_par([[progs.step_run('r1', p1, ['r0'])], lane2]), progs.step_scan('r1')]
         scs.append(progs.scenario(len(scs) + 1, steps, exec_='bigmachine', parallelism=2, machprocs=rng.choice([1, 2]), timeout_s=60))
+    # directed: a Discard whose context is already cancelled (its calls to the workers fail), then reuse
+    for k in range(3 if tier == 'quick' else 20):
+        g0 = progs.Gen(rng)
+        p0, k0 = g0.program(rng.choice([0, 1, 2]), taps=[])
+        if k0[0] == 'weak' or any(n['op'] in ('scanreader', 'head') for n in p0['nodes']):
+            continue
+        p0['taps'] = []
+        g = progs.Gen(rng, nargs=1, argkinds=[k0])
+        i = g.add(progs.N('arg', arg=0), k0[0], k0[1])
+        i = g.add(progs.N('map', **{'in': [i]}, f='inc'), k0[0], k0[1])
+        p1 = {'nodes': g.nodes, 'out': i, 'taps': []}
+        dc = dict(progs.step_discard('r0'), cancelled=True)
+        arm = {'do': 'kills', 'as': '', 'res': '', 'args': [], 'kills': [{'method': 'Worker.Discard', 'ordinal': o, 'phase': 'fail', 'bytes': 0} for o in range(1, 9)]}
+        steps = [progs.step_run('r0', p0), arm, dc, progs.step_run('r1', p1, ['r0']), progs.step_scan('r1'), progs.step_scan('r0')]
+        scs.append(progs.scenario(len(scs) + 1, steps, exec_='bigmachine', parallelism=2, machprocs=2, timeout_s=25, interpose=True))
     # directed: a diamond of result reuse with paths of different length, the last run needing machines that have
     # not seen the earlier invocations (they must receive them in dependency order)
     for sc in progs.diamond_scenarios(rng, 4 if tier == 'quick' else 30, len(scs) + 1):
